@@ -296,6 +296,9 @@ func (s *Scanner) aliasParameter() token.Token {
 	}
 
 	for !s.atEnd() && s.peek() != '>' {
+		if s.peek() == '\n' {
+			s.increaseLineBeforeAdvance() // keep line/column accounting correct for the tokens that follow
+		}
 		if !isAlphaNumeric(s.advance()) {
 			s.err(ddperror.SYN_MALFORMED_ALIAS, s.currentRange(), "Invalider Parameter Name")
 		}
